@@ -529,7 +529,7 @@ class VROOMAd(Adapter):
 
     def gen_params(self, rnd, T):
         n = rnd.choice([T, T, 2 * T, 100, 64, 128, 20, 33])
-        return {"n": n, "h_max": rnd.choice([100, 100, 3, 5, 8, 1000]), "b": rnd.choice([1.0, 0.5, 2.0]),
+        return {"n": n, "h_max": rnd.choice([3, 5, 8, 8, 12, 16, 25, 1000 if n <= 33 else 10]), "b": rnd.choice([1.0, 0.5, 2.0]),
                 "f_max": rnd.choice([1.0, 2.0, 10.0])}
 
     def construct(self, p, box, pcls):
@@ -605,8 +605,39 @@ class VROOMAd(Adapter):
                 f"depth={part.get_depth()} layers={layers_str(part)} nodes={delta.dump(node_strs(part, vr_str))}")
 
 
+class StroquOOLAd(Adapter):
+    """monitor-only adapter: StroquOOL has no Lean model yet (its lines are not compared)"""
+    name = "StroquOOL"
+    time_sensitive = True
+    model = False
+
+    def constrain(self, rnd, kind, K, d):
+        # the code addresses children[0] and children[1] only: binary-child partitions
+        if kind == "dimBinary":
+            return kind, K, 1
+        if kind in ("kary", "randKary"):
+            return kind, 2, d
+        return kind, K, d
+
+    def gen_params(self, rnd, T):
+        return {"n": rnd.choice([100, 200, 300, 500, 1000])}
+
+    def fix_T(self, p, T):
+        return p["n"] if T >= 60 else max(20, p["n"] // 3)
+
+    def construct(self, p, box, pcls):
+        from PyXAB.algos.StroquOOL import StroquOOL
+        return StroquOOL(n=p["n"], domain=box, partition=pcls)
+
+    def init_line(self, p, kind, K, box, calls, algo=None):
+        return "# StroquOOL (no model)", None
+
+    def dump(self, a, delta):
+        return None
+
+
 ADAPTERS = {a.name: a for a in [HOOAd(), HCTAd(), VHCTAd(), SOOAd(), DOOAd(), StoSOOAd(), SequOOLAd(),
-                                POOAd(), GPOAd(), PCTAd(), VPCTAd(), ZoomingAd(), VROOMAd()]}
+                                POOAd(), GPOAd(), PCTAd(), VPCTAd(), ZoomingAd(), VROOMAd(), StroquOOLAd()]}
 
 
 # ------------------------------------------------------------------ generic case
@@ -622,6 +653,8 @@ def gen_algo_case(seed, idx, algo=None, force=None, monitors_on=True, T=None, ho
     if hasattr(ad, "constrain") and not force.get("kind"):
         kind, K, d = ad.constrain(rnd, kind, K, d)
     box, bmode = gen_box(rnd, d, force.get("bmode"))
+    if force.get("box") is not None:
+        box = [list(iv) for iv in force["box"]]
     T = T or force.get("T") or rnd.choice([20, 40, 60, 100, 150])
     rmode = force.get("rmode") or rnd.choice(REWARD_MODES)
     qmode = force.get("qmode") or rnd.choice(["mixed", "dyadic", "random", "end", "half"])
@@ -639,15 +672,24 @@ def gen_algo_case(seed, idx, algo=None, force=None, monitors_on=True, T=None, ho
     if kind in ("kary", "randKary"):
         case.tags[f"K={K}"] += 1
     hooks = hooks or {}
-    reward_fn = make_reward_fn(rnd, rmode, box)
-    query_rounds = set(rnd.sample(range(T), min(n_queries, T))) if ad.name in ("T_HOO", "HCT", "VHCT", "Zooming", "POO") else set()
+    # independent streams: rewards, random draws and query positions do not depend on how the
+    # configuration was chosen (relational checks re-run a case with parts of it forced)
+    rrnd = random.Random(f"rew-{seed}-{idx}-{ad.name}")
+    drnd = random.Random(f"draw-{seed}-{idx}-{ad.name}")
+    qrnd = random.Random(f"query-{seed}-{idx}-{ad.name}")
+    reward_fn = make_reward_fn(rrnd, rmode, force.get("reward_box") or box)
+    if force.get("query_rounds") is not None:
+        query_rounds = set(force["query_rounds"])
+    else:
+        query_rounds = set(qrnd.sample(range(T), min(n_queries, T))) if ad.name in ("T_HOO", "HCT", "VHCT", "Zooming", "POO") else set()
+    labels = force.get("labels")
     if ad.name in ("POO", "GPO", "PCT", "VPCT"):
         import copy as _copy
         ad = _copy.copy(ad)      # adapters of wrappers keep per-case state
     delta = Delta()
     ctx = {"case": case, "ad": ad, "meta": meta, "rewards": [], "points": [], "pulled": [], "box": box, "kind": kind, "K": K}
     user_box = [list(iv) for iv in box]
-    with RngCtl(rnd, qmode=qmode) as rng:
+    with RngCtl(drnd, qmode=qmode) as rng:
         ctx["rng"] = rng
         pcls = make_partition_class(kind, K, rng)
         ctx["pcls"] = pcls
@@ -679,7 +721,7 @@ def gen_algo_case(seed, idx, algo=None, force=None, monitors_on=True, T=None, ho
         if "after_init" in hooks:
             hooks["after_init"](ctx)
         for i in range(T):
-            t = t0 + i
+            t = labels[i] if labels else t0 + i
             if i in query_rounds:
                 mark, rmark = len(glog), len(rng.log)
                 try:
@@ -748,6 +790,10 @@ def gen_algo_case(seed, idx, algo=None, force=None, monitors_on=True, T=None, ho
         if user_box != box:
             case.fail("C14", "domain-mutated", "user domain object modified", algo=ad.name)
     meta["n_nodes"] = sum(len(p_._all) for p_ in parts())
+    if not getattr(ad, "model", True):
+        case.ops = [("# " + l, None) for l, _e in case.ops]
+    case.trace = {"points": ctx["points"], "last": list(ctx["last"]) if ctx.get("last") is not None else None,
+                  "rewards": ctx["rewards"], "stopped": case.stopped}
     meta["rounds_done"] = len(ctx["rewards"])
     return case
 
